@@ -61,6 +61,17 @@
                                  (`plogObs`): per App the loggers that receive the lines   → scan=<t,…> close=<t,…> lines=ok
     rdel <g> <rounds>            Range (threads 1..g) against Store/Delete of a third key (thread 0), round robin (`rdelObs`)
                                                                                     → phantom=0 dup=0 missing=0
+    closeq <n> <errmask> <procs> <seed>
+                                 n closers next to user post-processors (class p/o/u + order digit + answer d/t): the processors
+                                 of the App in their sorted order, `resolveAfter` over them for the App component; the Close system
+                                 over the n closers iff the dependency processor's PostProcessProperties is applied (it always is)
+    closeh <n> <errmask> <quals> <holders> <seed>
+                                 n closers with qualifiers, other components with an injection point of the closer type: the App
+                                 is offered `ownCandidates` = every registered closer, whatever the holders kept of theirs
+    fdirect <n> <parts> <starts> <seed>
+                                 the public factory driven directly: per scanner one scanning round over n + |parts| components in
+                                 which no scanner fails; every goroutine reads the registry field `Default()` filled (`fdirectObs`)
+                                                                                    → errs=0 lost=<k> two=<k>
     setlen <obj> <nk> <trials> <queue>…
                                  a fresh ConcurrentSets (`cs`) / GenericConcurrentSets (`gs`) holding the keys 1..nk; one goroutine
                                  per queue (`x<k>` Remove k, `p<k>` Put k, joined by `.`; no key both removed and put, so every
@@ -237,6 +248,73 @@ def handleCloseK (n mask : Nat) (kinds : String) (seed : Nat) : String :=
   let upper := cs.filter fun c => c == 'I' || c == 'L' || c == 'C'
   if n > 40 || cs.length != n || ks.any Option.isNone || upper.eraseDups.length != upper.length || !bitsBelow mask n then "bad-line" else
   showPresent n (scanDefined codeScanGuard ((List.range n).zip (ks.filterMap id))) mask seed
+
+/-! ninth round: user post-processors, other holders of closers, the factory driven directly -/
+
+/-- Order() of a user processor with order digit d -/
+def closeqOrders : List Int := [-1, 0, 1, 2, 3, 4, 5, 8, 16, 100]
+
+/-- (rank: 0 PriorityOrdered, 1 Ordered, 2 neither; order; processor) -/
+abbrev RankedProc := Nat × Int × IProc
+
+/-- the built-in post-processors of an App (app/app.go:46-57; container/processors/orders.go): all answer true -/
+def builtinProcs : List RankedProc :=
+  [(1, 2, depProc), (1, 4, ⟨1, true, true⟩), (1, 8, ⟨2, true, true⟩), (1, 2, ⟨3, true, true⟩),
+   (0, 2, ⟨4, true, true⟩), (0, 4, ⟨5, true, true⟩), (0, 8, ⟨6, true, true⟩), (0, 16, ⟨7, true, true⟩), (0, 16, ⟨8, true, true⟩)]
+
+def parseQProc (idx : Nat) (t : String) : Option RankedProc :=
+  match t.toList with
+  | [c, d, a] =>
+    if !("pou".toList.contains c) || !d.isDigit || !("dt".toList.contains a) || (c == 'u' && d != '0') then none else
+    let rank := if c == 'p' then 0 else if c == 'o' then 1 else 2
+    some (rank, closeqOrders.getD (d.toNat - 48) 0, ⟨100 + idx, true, a == 't'⟩)
+  | _ => none
+
+def rankedBefore (a b : RankedProc) : Bool :=
+  a.1 < b.1 || (a.1 == b.1 && a.1 != 2 && a.2.1 < b.2.1)
+
+/-- SortOrderedComponents: the three classes one after the other, the first two sorted by Order() (insertion keeps the
+    earlier of two equal ones first) -/
+def insertRanked (x : RankedProc) : List RankedProc → List RankedProc
+  | [] => [x]
+  | y :: ys => if rankedBefore y x || !(rankedBefore x y) then y :: insertRanked x ys else x :: y :: ys
+
+def sortRanked (l : List RankedProc) : List RankedProc := l.foldr insertRanked []
+
+def handleCloseQ (n mask : Nat) (procs : String) (seed : Nat) : String :=
+  let toks := if procs == "-" then [] else procs.splitOn "."
+  let ps := (List.range toks.length).zip toks |>.map fun (i, t) => parseQProc i t
+  if n > 40 || toks.length > 6 || ps.any Option.isNone || !bitsBelow mask n then "bad-line" else
+  let sorted := sortRanked (ps.filterMap id ++ builtinProcs)
+  let present := if collectsClosers (resolveAfter (sorted.map (·.2.2))) then List.range n else []
+  showPresent n present mask seed
+
+def handleCloseH (n mask : Nat) (quals holders : String) (seed : Nat) : String :=
+  let qs := if n == 0 && quals == "-" then [] else quals.toList
+  let hs := if holders == "-" then [] else holders.splitOn "."
+  let okTok : String → Bool := fun t => match t.toList with
+    | [k, q, p] => "lo".toList.contains k && "dmn".toList.contains q && "ba".toList.contains p &&
+        n > 0 && (q == 'n' || qs.contains q)
+    | _ => false
+  if n > 40 || qs.length != n || qs.any (fun q => !("sdm".toList.contains q)) || hs.length > 6 || !hs.all okTok
+      || !bitsBelow mask n then "bad-line" else
+  -- what the holders populated before the App keep of THEIR candidates
+  let keeps : List (Nat → Bool) := (hs.filter fun t => t.toList.getD 2 'a' == 'b').map fun t i =>
+    let q := t.toList.getD 1 'n'
+    q == 'n' || qs.getD i 's' == q
+  showPresent n (ownCandidates (List.range n) keeps) mask seed
+
+def handleFdirect (n : Nat) (parts : String) (starts seed : Nat) : String :=
+  let ps := parts.toList
+  let count : Char → Nat := fun c => (ps.filter (· == c)).length
+  let nscan := count 't' + count 'u' + count 'r'
+  if n < 1 || n > 96 || starts < 1 || starts > 2000 || ps.length < 1 || ps.length > 6 || ps.any (fun c => !("turf".toList.contains c))
+      || nscan == 0 || count 'f' > 1 || count 't' > 1 || count 'u' > 1 then "bad-line" else
+  let g := n + ps.length
+  let rounds := (List.range nscan).map fun k => runFan (scanShape Facts.scanSkel).cfg g 0 (seed + k)
+  if rounds.any (fun s => s.mainPc != 3) then "stuck" else
+  let r := fdirectObs g
+  "errs=" ++ toString ((rounds.map (·.acc)).foldl (· + ·) 0) ++ " lost=" ++ toString r.1 ++ " two=" ++ toString r.2
 
 /-! seventh round -/
 
@@ -429,6 +507,9 @@ def handle (line : String) : String :=
   | ["closeb", n, mask, rounds, seed] => handleCloseB (natOr n 99) (natOr mask 0) (natOr rounds 0) (natOr seed 0)
   | ["closep", regs, opts, mask, seed] => handleCloseP regs opts (natOr mask 0) (natOr seed 0)
   | ["closek", n, mask, kinds, seed] => handleCloseK (natOr n 99) (natOr mask 0) kinds (natOr seed 0)
+  | ["closeq", n, mask, procs, seed] => handleCloseQ (natOr n 99) (natOr mask 0) procs (natOr seed 0)
+  | ["closeh", n, mask, quals, holders, seed] => handleCloseH (natOr n 99) (natOr mask 0) quals holders (natOr seed 0)
+  | ["fdirect", n, parts, starts, seed] => handleFdirect (natOr n 0) parts (natOr starts 0) (natOr seed 0)
   | ["plog", apps, n, nc, first, flags, _seed] =>
     handlePlog (natOr apps 0) (natOr n 0) (natOr nc 99) (natOr first 0) (natOr flags 0)
   | ["rdel", g, rounds] => handleRdel (natOr g 0) (natOr rounds 0)
